@@ -34,6 +34,8 @@ class RefDevice:
         self.legacy_exclusive = True
         self.msg_id = 0
         # scripts (consumed one directive per event; default {} = honest, prompt)
+        self.default_directive = {}   # used for a data request when the script is empty
+        self.pending_tail = {}        # cid -> bytes of a half-sent unsolicited packet, flushed before the next send
         self.script = []       # per data request transmission
         self.hs_script = []    # per handshake request
         self.conn_script = []  # per connect attempt: [action, delay]
@@ -71,6 +73,11 @@ class RefDevice:
         if self.conn_script:
             a = self.conn_script.pop(0)
             action, delay = a[0], a[1]
+            if action == "accept_junk":
+                # accept, then speak first: hostile bytes before the client has sent anything
+                self._junk_on_connect = bytes.fromhex(a[2])
+                self._fire("connect_accept_junk")
+                return "accept", delay
             if action != "accept":
                 self._fire("connect_" + action)
             return action, delay
@@ -80,6 +87,12 @@ class RefDevice:
         conn.state.update({"keys": [], "accepted_key": None, "rx_buf": b"", "tx_counter": 0,
                            "last_counter": None, "hs_ok": False})
         self._ev(conn, "connect")
+        junk = getattr(self, "_junk_on_connect", None)
+        if junk:
+            self._junk_on_connect = None
+            conn.state["desync"] = True
+            conn.send(junk, lat=MIN_LAT / 4)
+            conn.hostile_until = max(conn.hostile_until, conn._last_sched)
 
     def on_client_close(self, conn):
         self._ev(conn, "client_close")
@@ -185,7 +198,10 @@ class RefDevice:
         st = conn.state
         d = self.hs_script.pop(0) if self.hs_script else {}
         lat = d.get("lat", MIN_LAT)
+        tail = self._take_tail(conn)
         if d.get("drop"):
+            if tail:
+                conn.send(tail, lat=lat)
             self._fire("silent_hs")
             return
         if d.get("byz") is not None:
@@ -251,7 +267,7 @@ class RefDevice:
         if d.get("garbage_prefix"):
             pre = bytes.fromhex(d["garbage_prefix"])
             self._fire("garbage_prefix")
-        total = pre + bytes(pkt)
+        total = tail + pre + bytes(pkt)
         conn.send(total, lat=lat, cuts=self._cuts(d, len(total)))
         hs_ev["end"] = len(conn.tx_stream)       # stream offset at which the reply is complete
         if not genuine:
@@ -262,6 +278,23 @@ class RefDevice:
         if d.get("close"):
             self._fire("close_after_hs" + ("_rst" if d.get("rst") else ""))
             conn.close(rst=bool(d.get("rst")), lat=lat)
+
+    def send_partial_unsolicited(self, conn, k):
+        """Push the first k bytes of an unsolicited state report now; the rest goes out right before the
+        device's next message on this connection (a TCP segmentation of the device's byte stream)."""
+        key = conn.state["keys"][-1] if conn.state.get("keys") else None
+        if self.version == 3 and key is None:
+            return False
+        pkt = self.wrap(conn, self.state_frame(ftype=acmodel.FT_REPORT), key)
+        k = max(1, min(k, len(pkt) - 1))
+        conn.send(pkt[:k], lat=MIN_LAT)
+        self.pending_tail[conn.cid] = pkt[k:]
+        self._fire("partial_unsolicited_packet")
+        return True
+
+    def _take_tail(self, conn):
+        """Rest of a half-sent unsolicited packet: it travels in the same segment as the next message."""
+        return self.pending_tail.pop(conn.cid, b"") or b""
 
     def _txc(self, conn):
         c = conn.state["tx_counter"]
@@ -290,8 +323,16 @@ class RefDevice:
         return pkt
 
     def _on_request(self, conn, frame, key):
-        d = self.script.pop(0) if self.script else {}
+        d = self.script.pop(0) if self.script else dict(self.default_directive)
         lat = d.get("lat", MIN_LAT)
+        tail = self._take_tail(conn)
+        if tail and (d.get("drop") or d.get("close") == "before" or d.get("error")):
+            conn.send(tail, lat=lat)
+            tail = b""
+        if tail:
+            # the rest of the half-sent report shares the response's segment (see C01 known finding
+            # first_packet_wins for the complementary shape), so no further cuts in this transmission
+            d = {k: v for k, v in d.items() if k not in ("cuts", "pre_sep", "hold", "gap")}
         try:
             req = codec.frame_parse_strict(frame)
         except codec.RefError as e:
@@ -323,6 +364,11 @@ class RefDevice:
             conn.hostile_until = max(conn.hostile_until, conn._last_sched)
             return
         msgs = []
+        if tail:
+            if self.version == 2:
+                conn.send(tail, lat=lat)
+            else:
+                msgs.append(tail)          # coalesced with the response (V3 stream)
         for kind in d.get("pre", []):
             m = self._extra(conn, kind, key)
             if m is not None:
